@@ -127,6 +127,30 @@ def tlc_behaviours(spec, cfg, num, depth, seed, workdir, family):
     return cases
 
 
+def go_fuzz(workdir, secs, seed):
+    """run Go's native coverage-guided fuzzer on the harness' FuzzDecode target; returns the corpus size"""
+    h = os.path.join(workdir, "h")
+    shutil.copy(os.path.join(VERIF, "harness", "fuzz_test.go"), h)
+    cache = os.path.join(workdir, "fuzzcache")
+    env = dict(os.environ, **GOENV)
+    cmd = ["go", "test", "-tags", "verif", "-run", "^$", "-fuzz", "FuzzDecode", "-fuzztime", "%ds" % secs,
+           "-test.fuzzcachedir", cache, "."]
+    try:
+        p = subprocess.run(cmd, cwd=h, env=env, capture_output=True, text=True, timeout=secs + 600)
+    except subprocess.TimeoutExpired:
+        raise Infra("go test -fuzz did not finish")
+    d = os.path.join(cache, "FuzzDecode")
+    # a crasher found by the engine itself is kept in testdata/: replay it too
+    td = os.path.join(h, "testdata", "fuzz", "FuzzDecode")
+    if os.path.isdir(td):
+        os.makedirs(d, exist_ok=True)
+        for f in os.listdir(td):
+            shutil.copy(os.path.join(td, f), d)
+    if not os.path.isdir(d):
+        raise Infra("go test -fuzz produced no corpus:\n" + (p.stdout + p.stderr)[-2000:])
+    return len(os.listdir(d))
+
+
 _VIOL = re.compile(r'<<\s*"VIOL",\s*(-?\d+),\s*(\d+),\s*\{([^}]*)\}\s*>>', re.S)
 _DONE = re.compile(r'<<\s*"DONE",\s*(\d+),\s*(\d+)\s*>>')
 
@@ -272,6 +296,7 @@ class Stage:
         self.family, self.mc, self.parts, self.trace = family, mc, parts, trace
         # behaviours: {tier: [(Gen spec, cfg, num walks, depth)]} - TLC -simulate output replayed on the real code
         self.behaviours = behaviours or {}
+        self.fuzz = {}      # {tier: seconds of native Go fuzzing whose corpus is replayed} (C03)
         self.nontrivial = nontrivial
         self.race = race
         self.driver_env = driver_env
@@ -344,6 +369,17 @@ def run_check(prop, stages, tier, seed, assumptions, rule, replay=None):
                 jobs.append((si, st, "beh", bi, 1, base + ".cases.ndjson", base + ".trace.ndjson"))
                 cov["behaviours_replayed"] = cov.get("behaviours_replayed", 0) + len(cases)
                 log("[gen] %s/%s: %d TLC behaviours replayed on the real code" % (spec, cfg, len(cases)))
+        # ---- 2c. coverage-guided fuzzing as an extra input source (its corpus is replayed and judged like the rest)
+        for si, st in enumerate(stages):
+            secs = getattr(st, "fuzz", {}).get(tier, 0)
+            if secs:
+                base = os.path.join(work, "%s_fuzzcorpus" % st.family)
+                n = go_fuzz(work, secs, seed)
+                run_driver(drivers[st.race], [st.family, "corpus", "-part", os.path.join(work, "fuzzcache", "FuzzDecode"),
+                                              "-cases", base + ".cases.ndjson", "-out", base + ".trace.ndjson"])
+                jobs.append((si, st, "fuzzcorpus", 0, 1, base + ".cases.ndjson", base + ".trace.ndjson"))
+                cov["fuzz_corpus_inputs"] = n
+                log("[fuzz] go test -fuzz FuzzDecode for %ds: %d corpus inputs replayed" % (secs, n))
         # ---- 3. TLC judges every recorded step
         def val(job):
             si, st, part, i, shards, cases, trace = job
